@@ -8,6 +8,8 @@ from .. import estimators as E
 from .. import gens
 from ..harness import Sub, Violation
 
+QUICK_SCALE = 6  # quick budgets below are multiplied by this (kept at about half a minute on 8 processes)
+
 RULE = ("fitted Douglas models: d in [1,4], feature masks with >=1 used feature (or None), n_cuts in [1,4], temperatures "
         "1e-4..10, any GEMINI name; after fit the cut points are overwritten in place by drawn, distinct, unsorted values "
         "so that every order occurs; query points keep 1e-3 away from cut points for the zero-temperature cell rule; data "
